@@ -106,6 +106,15 @@ def reader(ctx):
             ks = prim_keys(v, v.guard_lits(l, False) + conj(l.value))
             if rk + ".source.valid" not in ks or dk + ".source.valid" not in ks:
                 ob3.refute("%s:source.valid" % tag, "source.valid (%s) does not require both a pending reservation and a data word" % l, l.loc)
+        # a whole-record connect that also carries `valid` drives source.valid without the reservation
+        for c_ in [l for l in v.leaves if l.kind == "connect" and l.inst == "" and key(l.target) == source]:
+            om = c_.stmt.omit or set()
+            kp = c_.stmt.keep
+            if "valid" not in om and (kp is None or "valid" in kp):
+                ob3.refute("%s:source.valid" % tag, "source.valid is driven by the connect `%s` (valid not omitted): the output is valid without a pending reservation, so a word "
+                           "returned for a read issued before a reset / abort is presented as the first word of the next stream" % str(c_.stmt)[:120], c_.loc)
+        if not sv and not [l for l in v.leaves if l.kind == "connect" and l.inst == "" and key(l.target) == source]:
+            ob3.unknown("%s: no driver of source.valid found" % tag)
         sl = v.drivers(source + ".last")
         def from_res(l):
             # last = res.last, possibly qualified (as a guard or as a conjunct) by the reservation / data valid
